@@ -174,6 +174,9 @@ class Interp:
                 k = "self." + e.attr
                 if k in fr.env: return fr.env[k]
                 if fr.cls is not None and hasattr(fr.cls, e.attr): return getattr(fr.cls, e.attr)   # class constants
+            base = self.expr(fr, e.value, guard)
+            if not is_sym(base) and not isinstance(base, (list, Opt)) and base is not None:
+                return getattr(base, e.attr)
             raise Unsupported("attribute " + ast.dump(e))
         if isinstance(e, ast.BinOp): return self.binop(type(e.op), self.expr(fr, e.left, guard), self.expr(fr, e.right, guard), guard)
         if isinstance(e, ast.UnaryOp):
@@ -250,6 +253,13 @@ class Interp:
                 if is_super: cls = [k for k in fr.cls.__mro__[1:] if f.attr in k.__dict__][0]
                 else: cls = [k for k in fr.cls.__mro__ if f.attr in k.__dict__][0]
                 return self.inline(cls, f.attr, args, fr, guard)
+        # pure call with concrete arguments only (isinstance, re.match, str methods ...): evaluate it
+        if all(not is_sym(a) and not isinstance(a, list) for a in args) and not e.keywords:
+            try:
+                target = self.expr(fr, f, guard) if not isinstance(f, ast.Name) else (fr.env.get(f.id) or fr.g.get(f.id) or getattr(__import__("builtins"), f.id))
+                return target(*args)
+            except Unsupported:
+                pass
         raise Unsupported("call " + ast.dump(f))
     def inline(self, cls, name, args, caller, guard):
         fn = cls.__dict__[name]
